@@ -9,18 +9,23 @@
    conv / as_pos   : every theorem holds for EVERY conversion function and both values of as_positional.
    auto_cli false  : the code as it is now (after the repairs 5bbebb1, 2f69862 and 4bb4764 in /repo);
    auto_cli true   : the code before them — only in the regression witnesses at the end.
-   The one remaining guard is exactly the finding class of the correspondence judge (Corr/C12Judge.v); the guards
-   no_reserved_param_names, no_private_optional_without_default, no_class_subcommand_param are gone with the repairs. *)
+   The guard in_guard is exactly "in neither open finding class" of the correspondence judge (Corr/C12Judge.v,
+   C12_guard_is_neither_finding_class); the guards no_reserved_param_names, no_private_optional_without_default,
+   no_class_subcommand_param are gone with the repairs.
+   Signatures range over three parameter kinds: positional-or-keyword, keyword-only and positional-only (`/`); the
+   model's call binding (py_call) is kind-aware: a value that reaches a positional-only parameter by keyword is a
+   TypeError, and _run_component passes everything by keyword (open finding positional-only-param). *)
 From JV Require Import Lib.Base Lib.C12Syntax Model.C12Cli Spec.C12CliSpec Proofs.C12CliProofs.
 
 (* The core: for all component trees (function, class with methods, list, nested dict), all tokenised
-   command lines and all conversions, if no Optional parameter has a str default that YAML reads as null, the code-shaped model and the reference
+   command lines and all conversions, if no Optional parameter has a str default that YAML reads as null and no parameter
+   is positional-only (the two open findings), the code-shaped model and the reference
    semantics agree on EVERY outcome: the same call log and returned value when the component is run,
    rejection of the command line exactly when the spec rejects it, refusal to build exactly when the
    spec refuses, and never an exception escaping from the call (no missing / unexpected keyword). *)
 Theorem C12_binds_exactly :
   forall (conv : ty -> raw -> option value) (as_pos : bool) (cs : components) (toks : list tok),
-    no_nullish_str_default cs = true ->
+    in_guard cs = true ->
     match auto_cli false conv as_pos cs toks with
     | Ok (log, ret) => spec conv as_pos cs toks = Done log ret
     | Err EParse => spec conv as_pos cs toks = Rejected
@@ -78,7 +83,7 @@ Print Assumptions C12_function_called_once.
 Theorem C12_class_split :
   forall (conv : ty -> raw -> option value) (as_pos : bool) (n : str) (i : sig) (ms : list (str * sig))
          (toks : list tok) (log : list call) (ret : retv),
-    no_nullish_str_default (One (CCls n i ms)) = true ->
+    in_guard (One (CCls n i ms)) = true ->
     auto_cli false conv as_pos (One (CCls n i ms)) toks = Ok (log, ret) ->
     exists b1, map fst b1 = names i /\
       ((ms = [] /\ log = [([n; s__init__], b1)] /\ ret = RetInstance) \/
@@ -106,7 +111,13 @@ Theorem C12_optional_defaults_none :
 Proof. exact optional_defaults_none. Qed.
 Print Assumptions C12_optional_defaults_none.
 
-(* ---- the guard is needed: the present code violates the property there (open finding) ------- *)
+(* the guard of C12_binds_exactly / C12_class_split is the conjunction of the two finding classes of the judge *)
+Theorem C12_guard_is_neither_finding_class :
+  forall cs, in_guard cs = no_nullish_str_default cs && no_positional_only cs.
+Proof. exact in_guard_split. Qed.
+Print Assumptions C12_guard_is_neither_finding_class.
+
+(* ---- the guards are needed: the present code violates the property there (open findings) ------- *)
 (* def run(alpha: Optional[str] = "null"), no arguments: the callee receives None instead of its default "null" *)
 Theorem C12_nullish_default_refuted :
   exists cs toks,
@@ -115,6 +126,22 @@ Theorem C12_nullish_default_refuted :
     spec conv_simple true cs toks = Done [([w_run], [(w_alpha, VStr w_null)])] (RetCall 0).
 Proof. exact nullish_default_refuted. Qed.
 Print Assumptions C12_nullish_default_refuted.
+
+(* def run(alpha: int, /), `3`: run( **{alpha: 3} ) -> TypeError escapes auto_cli; the property demands run(3) *)
+Theorem C12_positional_only_refuted :
+  exists cs toks,
+    no_positional_only cs = false /\ no_nullish_str_default cs = true /\
+    auto_cli false conv_simple true cs toks = Err ECrash /\
+    spec conv_simple true cs toks = Done [([w_run], [(w_alpha, VInt 3)])] (RetCall 0).
+Proof. exact positional_only_refuted. Qed.
+Print Assumptions C12_positional_only_refuted.
+
+(* a positional-only parameter that is left to its signature default (a private name is not offered) is harmless *)
+Example C12_positional_only_default_harmless :
+  auto_cli false conv_simple true (One (CFn w_run [w_po w_hid TInt (Some (VInt 4));
+                                                        {| p_name := w_alpha; p_kind := KwOnly; p_ty := TInt; p_default := None |}])) [KPos (RInt 3)]
+  = Ok ([([w_run], [(w_hid, VInt 4); (w_alpha, VInt 3)])], RetCall 0).
+Proof. exact positional_only_default_harmless. Qed.
 
 (* ---- regression witnesses about the code BEFORE the repairs (auto_cli true): the four inputs on which it
         violated the property, and the same inputs on the present model ------------------------------------------ *)
@@ -174,7 +201,7 @@ Print Assumptions C12_round1_inputs_repaired.
 (* ---- the hypotheses are satisfiable by a non-trivial input: a dict holding a class with a method;
         values from a --config section, positionally, by option (twice, last wins) and by default ---- *)
 Example C12_guards_satisfiable :
-  no_nullish_str_default w_ex_comps = true /\
+  in_guard w_ex_comps = true /\
   auto_cli false conv_simple true w_ex_comps w_ex_toks =
     Ok ([([w_tool; s__init__], [(w_alpha, VInt 9); (w_beta, VStr w_sigma)]);
          ([w_tool; w_train], [(w_alpha, VInt 5); (w_sigma, VBool true)])], RetCall 1).
